@@ -19,6 +19,10 @@ type Violation struct {
 	Signature string          `json:"signature"` // stable identity: kind + where + role
 	What      string          `json:"what"`      // human-readable detail
 	Case      json.RawMessage `json:"case"`      // everything needed to re-execute
+	// Seq / W: position of the case in the stream of worker W (a pure function of seed, tier and worker index): lets
+	// the driver re-execute the worker's whole history up to this case when nothing shorter reproduces it.
+	Seq int64 `json:"seq"`
+	W   int   `json:"w"`
 }
 
 // Stats is a worker's report.
